@@ -55,18 +55,20 @@ def check(ctx: Ctx) -> None:
     # the cached parse function uses this parser object on its own parameter
     d = g.discovery
     pf = d["fn"]
-    calls = d["calls"]
-    good = len(calls) == 1 and len(calls[0]["args"]) == 1 and calls[0]["args"][0] is d["arg"] and not calls[0]["kwargs"] and d["returns_parse_result"]
-    ctx.ob("C01.config", "parse-call", good,
-           f"parse_condition_expression_to_tree does not return <the Lark parser>.parse(<its own argument>): parse calls {[(c['args'], c['kwargs']) for c in calls]}, "
-           f"result is the parser's tree: {d['returns_parse_result']}", file=FILE, line=pf.node.lineno, function=pf.qualname)
+    bad_paths = [p for p in d["paths"] if not (p["good_call"] and p["returns_parse_result"]) or p["raised"]]
+    ctx.ob("C01.config", "parse-call", not bad_paths,
+           f"parse_condition_expression_to_tree does not return <the Lark parser>.parse(<its own argument>) on every path ({len(bad_paths)} of {len(d['paths'])} paths deviate): "
+           + "; ".join(f"parse calls {p['calls_text']}, raises {p['raised']}, result is the parser's tree: {p['returns_parse_result']}" for p in bad_paths[:2]),
+           file=FILE, line=pf.node.lineno, function=pf.qualname)
     # ---- shape of the start rule
     start = g.start
     alts = g.rules_of(start)
     ctx.require(len(alts) >= 5, f"start rule {start} has only {len(alts)} alternatives")
+    atoms = {r.expansion[0][0] for r in alts if len(r.expansion) == 1 and not r.expansion[0][1]}
     flat = all(
         (len(r.expansion) == 3 and r.expansion[0][0] == start and r.expansion[2][0] == start and r.expansion[1][1])
-        or (len(r.expansion) == 2 and r.expansion[0][0] == start and r.expansion[1][0] == start)
+        # juxtaposition: `e e`, or `e <atom>` spelled out per kind of atom (a sub-language of `e e` with the same root choice)
+        or (len(r.expansion) == 2 and r.expansion[0][0] == start and (r.expansion[1][0] == start or r.expansion[1][0] in atoms) and not r.expansion[1][1])
         or (len(r.expansion) == 1 and not r.expansion[0][1])
         for r in alts)
     if not flat:
